@@ -2,7 +2,7 @@
 
 PROP = {
     "pkg": "internal/home",
-    "files": ["home/common_assembly_test.go", "home/c11_test.go"],
+    "files": ["home/common_assembly_test.go", "home/c11_test.go", "home/c11_raw_test.go"],
     "level": "exploration",
     "technique": "property-based testing (rapid) over (route x request shape x credential class x path spelling) against "
                  "the really assembled admin mux; routes enumerated dynamically from the mux; source scan as "
@@ -29,6 +29,7 @@ PROP = {
     "tests": [
         ("TestVFC11Unauthenticated", (6000, 30000)),
         ("TestVFC11Authenticated", (1500, 6000)),
+        ("TestVFC11RawRequestLine", (1500, 8000)),
     ],
     "plain": ["TestVFC11PublicAndValid", "TestVFC11RouteCoverage"],
     "shards": (2, 16),
